@@ -120,7 +120,8 @@ def apply_step(c, st):
 
 
 def py_mutate(req):
-    c = circ_from_json(req['c'])
+    # the circuit the calls are made on: built afresh, or (every third one) a deep copy / a pickle round trip of it
+    c = _attached(req['c'])
     out = []
     with UuidPatch():
         for st in req['steps']:
